@@ -74,6 +74,13 @@ def add_metas(doc, dec, enc):
         else:
             head[4].insert(dec.below(len(head[4]) + 1), m)
             placements.append("head")
+    if dec.below(4) == 0:
+        # something that only looks like a declaration to a byte-level prescan: text of a script/style element in head.  The tree
+        # constructor never sees it as a meta element, so a later real (or the injected) declaration still has to win.
+        fake = dec.pick(['var s = "<meta charset=koi8-r>";', '<meta http-equiv="Content-Type" content="text/html; charset=shift_jis">', "/* <meta charset='windows-1251'> */",
+                         "<meta charset=utf-16le>"])
+        head[4].insert(dec.below(len(head[4]) + 1), ["e", H, dec.pick(["script", "style"]), [], [["t", fake]]])
+        placements.append("fake-in-rawtext")
     if dec.below(5) == 0:
         doc["pre"].append(["c", " pad " * 230])
         placements.append(">1024-before-head")
